@@ -1339,6 +1339,21 @@ func equal(a, b Object) (bool, error) {
 		return isSameDict(a.(Dict), b.(Dict)), nil
 	}
 
+	// compare numbers by their mathematical values (float64 cannot represent
+	// all integers)
+	if ai, ok := a.(Integer); ok {
+		switch b := b.(type) {
+		case Integer:
+			return ai == b, nil
+		case Real:
+			return integerEqualsReal(ai, b), nil
+		}
+	} else if bi, ok := b.(Integer); ok {
+		if ar, ok := a.(Real); ok {
+			return integerEqualsReal(bi, ar), nil
+		}
+	}
+
 	normalize := func(obj Object) (Object, error) {
 		switch obj := obj.(type) {
 		case Real:
@@ -1362,6 +1377,15 @@ func equal(a, b Object) (bool, error) {
 		return false, err
 	}
 	return a == b, nil
+}
+
+// integerEqualsReal reports whether i and r represent the same number.
+func integerEqualsReal(i Integer, r Real) bool {
+	f := float64(r)
+	if f != math.Trunc(f) || f < -0x1p63 || f >= 0x1p63 {
+		return false
+	}
+	return Integer(f) == i
 }
 
 func (intp *Interpreter) bindProc(proc Procedure) {
